@@ -106,8 +106,21 @@ def run(ck):
         L.evaluate(ck, "long generated histories (400-800 events)", items, WHICH, THEOREMS, L.nontrivial_c10, rnd)
 
     L.sync_connect_part(ck, rnd, 400 * (10 if thorough else 1), THEOREMS)
+    L.reentrant_part(ck, rnd, 400 * (10 if thorough else 1), THEOREMS)
 
-    L.exhaustive(ck, 7 if thorough else 5, "whole", WHICH, THEOREMS, rnd)
+    # ---- finding F-C10-1 (outside the model: re-entrant close() from the callback of a no-reply request inside _sendQueued)
+    observed, fev, fouts = L.probe_f_c10_1()
+    what = ("close() called from the callback of a no-reply request while the queue is flushed on a new connection: a request "
+            "is written after close() failed its Deferred (afkak/brokerclient.py:382-386)")
+    frp = {"kind": "finding witness", "events": D.jsonable(fev), "hooks": {"0": ["close"]}, "outputs_of_connect_event": [list(map(repr, o)) for o in fouts],
+           "replay_op": "bc-hook-probe"}
+    if ("C10", "F-C10-1") in vlib.load_known():
+        ck.finding("F-C10-1", observed, what, frp)
+    else:   # reported to the coordinator; not yet listed in known_findings.txt: recorded, outside the claimed statement
+        ck.cov["known_findings"].append({"id": "F-C10-1", "observed": bool(observed), "listed": None, "what": what,
+                                         "note": "outside the model (callbacks re-entering from a no-reply request); reported, awaiting a fix:/known: decision"})
+
+    L.exhaustive(ck, 7 if thorough else 6, "whole", WHICH, THEOREMS, rnd)
     if thorough:
         L.exhaustive(ck, 6, "split", WHICH, THEOREMS, rnd)
         ck.coqchk(["AV.Props.C10"])
@@ -125,7 +138,7 @@ def run(ck):
         "Twisted (Deferred, Clock, deferLater, maybeDeferred) is exercised, not verified; that a reactor fires the back-off timer after the delay it was given is runtime behaviour: the model carries the failure COUNT handed to the retry policy, the driver checks the float bit for bit",
         "the retry policy is a parameter (any callable); jitter of afkak's default policy is outside the statement",
         "request payload bytes are outside the model; sendString/transport.write assumed not to raise (brokerclient.py:370-373 not modelled)",
-        "endpoints whose connect() completes synchronously are outside the model's alphabet; the model header argues they equal the outcome arriving as the next event, and this check runs that comparison on the real code (sync_connect_part); callbacks re-entering the client from a Deferred callback are outside the model",
+        "endpoints whose connect() completes synchronously are outside the model's alphabet; the model header argues they equal the outcome arriving as the next event, and this check runs that comparison on the real code (sync_connect_part); callbacks re-entering the client: from reply callbacks checked the same way (reentrant_part); from the callback of a no-reply request (fired in the middle of _sendQueued) NOT covered - finding F-C10-1 is probed and recorded",
         "loseConnection() is only a REQUEST in the simulated transport: the loss is the separate event `lost`, so the window between the two is explored",
         "extraction: ExtrOcamlBasic only; sample re-evaluated in Coq by vm_compute (the exhaustive enumeration is compared against the extracted runner only)",
     ]
@@ -136,6 +149,14 @@ def run(ck):
 def replay(rp):
     if rp.get("replay_op") == "bc":
         return L.replay_bc(rp)
+    if rp.get("replay_op") == "bc-hook":
+        return L.replay_hook(rp)
+    if rp.get("replay_op") == "bc-hook-probe":
+        observed, fev, fouts = L.probe_f_c10_1()
+        print("make(1, no reply) with callback -> close(); make(2); connect succeeds.  outputs of the connect event now:")
+        print("  ", fouts)
+        print("request 2 written after close() failed its Deferred:", observed)
+        return 1 if observed else 0
     if rp.get("replay_op") == "bc-sync":
         print("history with synchronous connect outcomes", rp.get("sync_outcomes"))
         print("implementation trace at the time:", rp.get("impl"))
